@@ -226,6 +226,9 @@ func (e *Engine) checkSlot(s *Sys, slot int) *Violation {
 	if cnt != len(l) {
 		return e.v(s, "query-pos", "filter %s: Count()=%d but %d visited", spec, cnt, len(l))
 	}
+	if v := e.entityAtAgrees(s, s.Filters[slot], l, spec.String()); v != nil {
+		return v
+	}
 	nMust := 0
 	for _, me := range e.M.Alive {
 		must, may := spec.Match(e.M, me)
@@ -277,8 +280,39 @@ func (e *Engine) checkSlot(s *Sys, slot int) *Violation {
 				return e.cachedExtra(s, spec, h, len(l2), len(l))
 			}
 		}
+		if v := e.entityAtAgrees(s, s.Cached[slot], l2, spec.String()+" (registered)"); v != nil {
+			return v
+		}
 		e.St.Probes["cached-compared"]++
 	}
+	return nil
+}
+
+// entityAtAgrees: on a second query over the same filter, EntityAt(i) is the i-th entity of the iteration (sampled),
+// one index past the end is refused, and Step from the start lands where Next would.
+func (e *Engine) entityAtAgrees(s *Sys, f ecs.Filter, seq []ecs.Entity, what string) *Violation {
+	if len(seq) == 0 {
+		return nil
+	}
+	q := s.W.Query(f)
+	defer func() {
+		func() {
+			defer func() { recover() }()
+			q.Close()
+		}()
+	}()
+	n := len(seq)
+	idx := []int{0, n - 1, n / 2, (e.step * 7) % n, (e.step*13 + 5) % n}
+	for _, i := range idx {
+		if got := q.EntityAt(i); got != seq[i] {
+			return e.v(s, "query-pos", "filter %s: EntityAt(%d)=%v, the iteration visits %v there (of %d)", what, i, got, seq[i], n)
+		}
+	}
+	k := 1 + (e.step*5)%n
+	if ok := q.Step(k); !ok || q.Entity() != seq[k-1] {
+		return e.v(s, "query-pos", "filter %s: Step(%d) from the start does not land on the %d-th entity of the iteration", what, k, k)
+	}
+	e.St.Probes["entityat-sampled"] += len(idx)
 	return nil
 }
 
